@@ -26,7 +26,7 @@ from ..core import Ctx, HarnessError, Violation, derive, hyp_run, shard_run
 PID = "C18"
 LEVEL = "exploration"
 EXHAUSTIVE = False
-RULE = ("(a) FP2Value operands = six coefficients (numerator and denominator of degree 2); every operator result is "
+RULE = ("[plus: honest range proofs for end-point challenges of the verifier's generator; several distinct keys loaded, used and dropped in turn] (a) FP2Value operands = six coefficients (numerator and denominator of degree 2); every operator result is "
         "mapped to the field element it denotes and compared with pv.fp2ref (reduced pairs, explicit inverses). "
         "Grids: all operand pairs with coefficients in {0,1} for each of the 24 primes = 2 mod 3 below 200 (all of "
         "F_2's 64 representations), in {0,1,p-1} for p in {5,11,17} (thorough: all 24 primes, plus {0,1,2,p-1} for "
